@@ -1,6 +1,7 @@
 package getter
 
 import (
+	"bytes"
 	"context"
 	"errors"
 	"fmt"
@@ -69,6 +70,7 @@ type Outcome struct {
 	Panic    string              `json:"panic,omitempty"`
 	Hung     bool                `json:"hung,omitempty"`
 	Served   map[string][]string `json:"served,omitempty"`
+	ServedAt map[string][]int64  `json:"servedAtMs,omitempty"`
 	BsServed map[string][]string `json:"bsServed,omitempty"`
 	Reqs     []string            `json:"reqs"`
 	IsNF     bool                `json:"isNotFound,omitempty"`
@@ -84,6 +86,7 @@ type driver struct {
 	rep    *vh.Report
 	seed   int64
 	hn     *hostileNet
+	hnBL   *hostileNet        // for cases with black-listing on: closing a peer's connection must not hit other cases
 	refs   map[int][]*shx.Ref // by width: [mixed layout, uniform layout, another square of the same width]
 	height atomic.Uint64
 	st     *store.Store
@@ -94,6 +97,7 @@ type driver struct {
 func newDriver(t *testing.T, rep *vh.Report) *driver {
 	d := &driver{t: t, rep: rep, seed: vh.Seed(), refs: map[int][]*shx.Ref{}}
 	d.hn = newHostileNet(t, 20)
+	d.hnBL = newHostileNet(t, 20)
 	d.height.Store(1000)
 	for _, w := range []int{1, 2, 4, 8} {
 		rng := seeded(d.seed, fmt.Sprintf("sq%d", w))
@@ -119,6 +123,11 @@ func newDriver(t *testing.T, rep *vh.Report) *driver {
 	}
 	return d
 }
+
+// harnessErr aborts one case because the harness (not the code under test) could not do its job.
+type harnessErr struct{ msg string }
+
+func bail(format string, a ...any) { panic(harnessErr{fmt.Sprintf(format, a...)}) }
 
 func splitKind(s string) (string, int) {
 	if i := strings.IndexByte(s, ':'); i >= 0 {
@@ -174,7 +183,7 @@ func (d *driver) concretise(c *Case, ref *shx.Ref) []shx.Req {
 		}
 		return []shx.Req{cands[rng.Intn(len(cands))]}
 	}
-	d.t.Fatalf("case %s: unknown type %q", c.ID, c.Type)
+	bail("case %s: unknown type %q", c.ID, c.Type)
 	return nil
 }
 
@@ -245,9 +254,16 @@ func classOfErr(o *Outcome, err error) {
 	o.IsVerify = errors.Is(err, shwap.ErrFailedVerification)
 }
 
-// runCase drives the real getter(s) through one case and classifies what came back with the oracle.
 func (d *driver) runCase(c Case) Outcome {
+	o, _, _ := d.runCaseFull(c)
+	return o
+}
+
+// runCaseFull drives the real getter(s) through one case and classifies what came back with the
+// oracle. It also returns the script keys of the items and the state of the caller's context at return.
+func (d *driver) runCaseFull(c Case) (out Outcome, keys []string, ctxState string) {
 	t := d.t
+	ctxState = "live"
 	w := c.W
 	if w == 0 {
 		w = 2
@@ -259,16 +275,20 @@ func (d *driver) runCase(c Case) Outcome {
 	height := d.height.Add(1)
 	ref := base.WithHeight(t, height)
 	reqs := d.concretise(&c, ref)
-	out := Outcome{Items: make([]string, len(reqs))}
+	hn := d.hn
+	if c.Blacklisting {
+		hn = d.hnBL
+	}
+	out = Outcome{Items: make([]string, len(reqs))}
 	for _, q := range reqs {
 		out.Reqs = append(out.Reqs, q.String())
 	}
 
 	// ---- the script the hostile peers play
 	sc := &script{ref: ref, queue: map[string][]answer{}, served: map[string][]string{}, silent: map[string]bool{},
-		release: make(chan struct{})}
+		release: make(chan struct{}), t0: time.Now()}
 	succeeds := map[string]map[int]bool{} // key -> index of answers predicted to be accepted
-	keys := make([]string, len(reqs))
+	keys = make([]string, len(reqs))
 	for i, q := range reqs {
 		key := ""
 		if q.Type == "sample" {
@@ -280,17 +300,24 @@ func (d *driver) runCase(c Case) Outcome {
 			for pos, spec := range c.Items[i] {
 				a, err := d.buildAnswer(&c, ref, q, spec, pos)
 				if err != nil {
-					t.Fatalf("case %s: %v", c.ID, err)
+					bail("case %s: %v", c.ID, err)
 				}
 				if payloadKinds[a.Kind] && ref.DecodeAndCheck(q, a.Payload) == nil {
 					succeeds[key][pos] = true
+				}
+				if a.Kind != "correct" && payloadKinds[a.Kind] {
+					if h, err := ref.Honest(q); err == nil && bytes.Equal(h, a.Payload) {
+						// degenerate square (e.g. width 1: every cell equals the only share): the "other"
+						// position's bytes ARE the honest answer
+						a.Kind, a.Label = "correct", a.Label+"=honest"
+					}
 				}
 				sc.queue[key] = append(sc.queue[key], a)
 			}
 		}
 	}
-	d.hn.scripts.Store(height, sc)
-	defer d.hn.scripts.Delete(height)
+	hn.scripts.Store(height, sc)
+	defer hn.scripts.Delete(height)
 	defer close(sc.release)
 
 	// ---- the getter chain
@@ -301,11 +328,11 @@ func (d *driver) runCase(c Case) Outcome {
 		switch g {
 		case "shrex":
 			usesShrex = true
-			full := d.hn.newManager(t, "full", c.Blacklisting)
-			arch := d.hn.newManager(t, "archival", c.Blacklisting)
-			sg := shrex_getter.NewGetter(d.hn.shrex, full, arch, availability.RequestWindow)
+			full := hn.newManager(t, "full", c.Blacklisting)
+			arch := hn.newManager(t, "archival", c.Blacklisting)
+			sg := shrex_getter.NewGetter(hn.shrex, full, arch, availability.RequestWindow)
 			if err := sg.Start(context.Background()); err != nil {
-				t.Fatalf("shrex getter start: %v", err)
+				bail("shrex getter start: %v", err)
 			}
 			defer sg.Stop(context.Background()) //nolint:errcheck
 			chain = append(chain, sg)
@@ -321,12 +348,12 @@ func (d *driver) runCase(c Case) Outcome {
 				err := d.st.PutODSQ4(context.Background(), ref.Roots, height, ref.EDS)
 				d.stMu.Unlock()
 				if err != nil {
-					t.Fatalf("store put: %v", err)
+					bail("store put: %v", err)
 				}
 			}
 			chain = append(chain, store.NewGetter(d.st))
 		default:
-			t.Fatalf("case %s: unknown getter %q", c.ID, g)
+			bail("case %s: unknown getter %q", c.ID, g)
 		}
 	}
 	var getter shwap.Getter
@@ -453,16 +480,28 @@ func (d *driver) runCase(c Case) Outcome {
 	out.Millis = time.Since(t0).Milliseconds()
 	out.HeldAll, out.Fallback = heldAll.Load(), fallback.Load()
 	out.Served, _, _ = sc.snapshot()
+	sc.mu.Lock()
+	out.ServedAt = map[string][]int64{}
+	for k, v := range sc.at {
+		out.ServedAt[k] = append([]int64(nil), v...)
+	}
+	sc.mu.Unlock()
 	if fx != nil {
 		out.BsServed = fx.servedSnapshot()
+	}
+	switch ctx.Err() {
+	case context.DeadlineExceeded:
+		ctxState = "deadline"
+	case context.Canceled:
+		ctxState = "cancelled"
 	}
 	if !returned {
 		out.Hung = true
 		out.Why = append(out.Why, "goroutines:\n"+dump[:min(len(dump), 6000)])
-		return out
+		return
 	}
 	if out.Panic != "" {
-		return out
+		return
 	}
 	out.OK = err == nil
 	classOfErr(&out, err)
@@ -505,7 +544,7 @@ func (d *driver) runCase(c Case) Outcome {
 	case "range":
 		class(0, rg.IsEmpty(), func() error { return ref.CheckRange(rg, reqs[0].From, reqs[0].To, true) })
 	}
-	return out
+	return
 }
 
 func sortedKeys(m map[string][]string) []string {
